@@ -920,3 +920,207 @@ func (f *Formula) Pretty() string {
 	}
 	return "(" + strings.Join(terms, ") || (") + ")"
 }
+
+// ---------------------------------------------------------------------------
+// helper success facts
+
+// MapTerms rebuilds the formula with f applied to the term behind every atom (equalities are re-canonicalised).
+func (f *Formula) MapTerms(fn func(*Term) *Term) *Formula {
+	switch f.Op {
+	case "const":
+		return f
+	case "atom":
+		if f.T == nil {
+			return f
+		}
+		t := fn(f.T)
+		if t.Op == "bin" && t.Val == "==" && len(t.Args) == 2 {
+			g := Eq(t.Args[0], t.Args[1])
+			g.T.Src = f.T.Src
+			return g
+		}
+		return FAtom(t.String(), t)
+	case "not":
+		return FNot(f.Args[0].MapTerms(fn))
+	}
+	var as []*Formula
+	for _, a := range f.Args {
+		as = append(as, a.MapTerms(fn))
+	}
+	if f.Op == "and" {
+		return FAnd(as...)
+	}
+	return FOr(as...)
+}
+
+var successBusy = map[*ssa.Function]bool{}
+
+// definitelyNonNilError: the returned error value cannot be nil at this return.
+func (e *Eval) definitelyNonNilError(r *ssa.Return, v ssa.Value) bool {
+	if IsNilConst(v) {
+		return false
+	}
+	pc := e.PathCond(r.Block(), nil)
+	t := e.Select(v, nil, r)
+	if t.Op == "call" {
+		switch t.Val {
+		case "errors.New", "fmt.Errorf", "pkgerrors.New", "pkgerrors.Errorf":
+			return true
+		case "pkgerrors.Wrap", "pkgerrors.Wrapf", "pkgerrors.WithStack", "pkgerrors.WithMessage":
+			// Wrap(nil, …) is nil: the wrapped value must be known non-nil here
+			if c, ok := v.(*ssa.Call); ok && len(c.Call.Args) > 0 {
+				return Implies(pc, FNot(e.NilTest(c.Call.Args[0])))
+			}
+			return false
+		}
+	}
+	if g, ok := v.(*ssa.UnOp); ok && g.Op == token.MUL {
+		if _, isG := g.X.(*ssa.Global); isG {
+			return true // a package-level error variable (assumed initialised, as everywhere in these rules)
+		}
+	}
+	return Implies(pc, FNot(e.NilTest(v)))
+}
+
+// successCond: for an in-module function with a trailing error result, a formula over its own parameters that holds
+// whenever it returns a nil error: the disjunction of the path conditions of the returns whose error may be nil.
+// Atoms over values that are not functions of the parameters (memory merges, opaque values) are quantified away
+// (weakening). nil when nothing useful is known.
+func successCond(g *ssa.Function) *Formula {
+	if g == nil || !InModule(g) || successBusy[g] {
+		return nil
+	}
+	res := g.Signature.Results()
+	if res.Len() == 0 || !IsErrorType(res.At(res.Len()-1).Type()) {
+		return nil
+	}
+	successBusy[g] = true
+	defer delete(successBusy, g)
+	ge := For(g)
+	out := FFalse()
+	n := 0
+	for _, b := range g.Blocks {
+		r, ok := b.Instrs[len(b.Instrs)-1].(*ssa.Return)
+		if !ok {
+			continue
+		}
+		n++
+		if ge.definitelyNonNilError(r, r.Results[res.Len()-1]) {
+			continue
+		}
+		out = FOr(out, ge.Strengthen(ge.PathCond(b, nil)))
+	}
+	if n == 0 {
+		return nil
+	}
+	// quantify away atoms that are not pure functions of the parameters
+	for i := 0; i < 8; i++ {
+		dirty := ""
+		for name, t := range out.Atoms() {
+			if t == nil || t.IsUnknown() || t.Has(func(x *Term) bool {
+				switch x.Op {
+				case "opaque", "phi", "loop", "alloc", "closure", "after", "copyof", "makeslice", "makemap", "deref":
+					return true
+				}
+				return false
+			}) {
+				if dirty == "" || name < dirty {
+					dirty = name
+				}
+			}
+		}
+		if dirty == "" {
+			break
+		}
+		out = FOr(out.Assign(dirty, true), out.Assign(dirty, false))
+	}
+	if len(out.Atoms()) > 6 {
+		return nil
+	}
+	return out
+}
+
+// Strengthen conjoins, for every atom of pc that says "the error of a call of an in-module helper is nil", the fact
+// that this implies: the helper's success condition with the arguments substituted. It lets a rule about
+// `v, err := helper(x); if err != nil { return err }; use(v)` conclude what held inside the helper on its
+// successful return (e.g. that the library call it wraps did not fail).
+func (e *Eval) Strengthen(pc *Formula) *Formula {
+	if pc == nil {
+		return pc
+	}
+	atoms := pc.Atoms()
+	if len(atoms) == 0 {
+		return pc
+	}
+	if e.errAtoms == nil {
+		e.errAtoms = map[string]*ssa.Call{}
+		for _, b := range e.Fn.Blocks {
+			for _, ins := range b.Instrs {
+				c, ok := ins.(*ssa.Call)
+				if !ok {
+					continue
+				}
+				g := c.Call.StaticCallee()
+				if g == nil || !InModule(g) || g == e.Fn {
+					continue
+				}
+				res := g.Signature.Results()
+				if res.Len() == 0 || !IsErrorType(res.At(res.Len()-1).Type()) {
+					continue
+				}
+				var ev ssa.Value
+				if res.Len() == 1 {
+					ev = c
+				} else if refs := c.Referrers(); refs != nil {
+					for _, rr := range *refs {
+						if ex, ok := rr.(*ssa.Extract); ok && ex.Index == res.Len()-1 {
+							ev = ex
+						}
+					}
+				}
+				if ev != nil {
+					e.errAtoms[e.NilTest(ev).Atom] = c
+				}
+			}
+		}
+	}
+	var names []string
+	for name := range atoms {
+		if _, ok := e.errAtoms[name]; ok {
+			names = append(names, name)
+		}
+	}
+	sort.Strings(names)
+	out := pc
+	for _, name := range names {
+		c := e.errAtoms[name]
+		g := c.Call.StaticCallee()
+		s := successCond(g)
+		if s == nil || len(g.Params) != len(c.Call.Args) {
+			continue
+		}
+		var args []*Term
+		for _, a := range c.Call.Args {
+			arg := e.argTerm(a, c)
+			if arg.Op == "addr" && len(arg.Args) == 1 {
+				arg = arg.Args[0]
+			}
+			args = append(args, arg)
+		}
+		inst := s.MapTerms(func(t *Term) *Term {
+			o := t
+			for i := range args {
+				o = o.Subst(Param(i), mk("param", fmt.Sprintf("__%d", i)))
+			}
+			for i, a := range args {
+				o = o.Subst(mk("param", fmt.Sprintf("__%d", i)), a)
+			}
+			return SelectRecFields(o)
+		})
+		out = FAnd(out, FOr(FNot(FAtom(name, atoms[name])), inst))
+	}
+	return out
+}
+
+// PathCondS is PathCond from the function entry, strengthened with helper success facts (see Strengthen).
+func (e *Eval) PathCondS(b *ssa.BasicBlock) *Formula { return e.Strengthen(e.PathCond(b, nil)) }
